@@ -68,6 +68,7 @@ type world struct {
 	base   *memory.Database // pristine previous-layout image
 	baseMD *migration.SchemaMetadata
 	optedAux, optedNewState bool // flags recorded in the base's last target
+	leadEmpty, trailEmpty   int
 }
 
 var blockCounts = []int{0, 1, 2, 9, 10, 11, 3, 19, 20, 21, 25, 30, 31, 40, 41, 50, 60}
@@ -80,10 +81,26 @@ func (w *world) buildChain(n int) {
 	ver := chaingen.Versions[t.Draw("version", len(chaingen.Versions))]
 	maxTxs := 1 + t.Draw("max.txs", 4)
 	emptyNum := t.Draw("empty.num", 4) // 0: no forced empty blocks
+	// runs of empty blocks at the start / at the end of the chain (0: none), around the batch size
+	// (their own early draw: most runs have none, so that what they uncover does not hide the rest)
+	lead, trail := 0, 0
+	switch t.Draw("empty.shape", 12) {
+	case 9:
+		lead = []int{1, 9, 10, 13, n}[t.Draw("empty.lead", 5)]
+	case 10:
+		trail = []int{1, 5, 10, 11}[t.Draw("empty.trail", 4)]
+	case 11:
+		lead = []int{1, 10}[t.Draw("empty.lead", 2)]
+		trail = []int{5, 11}[t.Draw("empty.trail", 2)]
+	}
+	w.leadEmpty, w.trailEmpty = min(lead, n), min(trail, n)
 	var parent *chaingen.Block
 	for i := 0; i < n; i++ {
 		o := chaingen.Opts{Version: ver, MaxTxs: maxTxs, MaxDiff: 3, MaxEvents: 2}
 		if emptyNum > 0 && t.Draw("empty", 4) < emptyNum-1 {
+			o.Empty = true
+		}
+		if i < lead || i >= n-trail {
 			o.Empty = true
 		}
 		b := w.gen.Next(t, parent, o)
